@@ -90,9 +90,10 @@ Total(P)      == << RealisedNum(P) + UnrealisedNum(P), Den(P) >>
 Without(f, a) == [x \in (DOMAIN f) \ {a} |-> f[x]]
 With(f, a, v) == [x \in (DOMAIN f) \cup {a} |-> IF x = a THEN v ELSE f[x]]
 
-TransactPosition(ps, a, q, p, c, t) ==
+TransactPositionWith(ps, a, q, p, c, t, deleteIf(_)) ==
   LET P == IF a \in DOMAIN ps THEN Transact(ps[a], q, p, c, t) ELSE OpenFrom(q, p, c, t)
-  IN  IF Net(P) = 0 THEN Without(ps, a) ELSE With(ps, a, P)
+  IN  IF deleteIf(Net(P)) THEN Without(ps, a) ELSE With(ps, a, P)
+TransactPosition(ps, a, q, p, c, t) == TransactPositionWith(ps, a, q, p, c, t, LAMBDA n : n = 0)
 
 (***************************************************************************)
 (* C03, per position.                                                      *)
